@@ -389,6 +389,7 @@ func vReset(f []string) string {
 	if vB(f[3]) {
 		c.RunOnDemand = vNoCmd
 		c.RunOnUnDemand = vNoCmd
+		c.RunOnDemandRestart = true // (the command fails in LookPath and is retried every 5 s of fake time)
 	}
 	c.OverridePublisher = vB(f[4])
 	if vB(f[5]) {
@@ -996,6 +997,9 @@ func vGenConf(r *verifutil.Rand, prop string) *vGenCfg {
 		c.max = 1 + r.Intn(3)
 	}
 	c.fb = r.Chance(1, 6)
+	if prop == "C19" {
+		c.fb = r.Chance(1, 3)
+	}
 	c.auto = r.Chance(1, 2)
 	c.aa = r.Chance(1, 4)
 	if prop == "C19" {
@@ -1087,7 +1091,31 @@ func vGenSourceRetry(r *verifutil.Rand) []string {
 	return ops
 }
 
+// C16: overridePublisher off on a runOnDemand path: a second publisher in every on-demand state in
+// which one is active (no demand yet / closing / ready), and after the first one left
+func vGenSecondPublisher(r *verifutil.Rand) []string {
+	c := &vGenCfg{kind: "pub", rod: r.Chance(3, 4), ovr: false, rx: r.Bool(), startMs: 10000, closeMs: 7000}
+	ops := []string{c.resetLine()}
+	rid := 0
+	if r.Bool() { // demand first
+		rid++
+		ops = append(ops, fmt.Sprintf("desc %d", rid))
+	}
+	ops = append(ops, "addpub 0 1", "addpub 1 1") // initial or closing
+	rid++
+	ops = append(ops, fmt.Sprintf("addrd %d 5", rid), "addpub 2 1", "write 0") // ready
+	ops = append(ops, "rmrd 5", "addpub 1 "+vb(r.Bool()))                        // closing again
+	if r.Bool() {
+		ops = append(ops, "tick", "addpub 2 1") // command stopped, publisher still there
+	}
+	ops = append(ops, "rmpub 0", "addpub 3 1", "addpub 0 1", "close")
+	return ops
+}
+
 func vGenHistory(r *verifutil.Rand, prop string, thorough bool) []string {
+	if prop == "C16" && r.Chance(1, 8) {
+		return vGenSecondPublisher(r)
+	}
 	if prop == "C18" && r.Chance(1, 10) {
 		return vGenOfflineAA(r)
 	}
